@@ -96,3 +96,8 @@ Theorem C11_rect_intersects_from_source : forall l t r b l' t' r' b',
   exists x y, in_rect l t r b x y /\ in_rect l' t' r' b' x y.
 Proof. exact Rect64_Intersects_points. Qed.
 Print Assumptions C11_segment_intersection_sound.
+
+(* the proper-crossing branch ends in internal_clipper.go:getSegmentIntersectPt, whose parallel test is exact within 2^29
+   (Model/KernelProofs.v, over Gen/Kernels_gen.v): an edit of that kernel breaks this file's obligations too *)
+From Clip Require Import Model.KernelProofs.
+Definition C11_intersect_kernel_from_source := Model.KernelProofs.gen_intersect_flag.
